@@ -98,6 +98,8 @@ package keystore
 //@ func (*AddrManager).updateManagedAddress
 //@   requires lock-entry: kmcLocked && !amLocked && !held[addr(a.mu)]
 //@ func (*AddrManager).changeRemark
+//@   requires lock-entry: kmcLocked
+//@ func (*AddrManager).setRemark
 //@   requires lock-entry: kmcLocked && !amLocked && !held[addr(a.mu)]
 //@ func (*AddrManager).Remarks
 //@   requires lock-entry: !amLocked && !held[addr(a.mu)]
